@@ -621,7 +621,34 @@ class Interp:
         raise Unsupported("with statement")
 
     def exec_Try(self, st):
-        raise Unsupported("try statement")
+        """try / except over the exceptions *raised by the code under verification* (RaiseEx); control-flow exceptions of
+        the interpreter (return / break / continue) pass through; `finally` always runs"""
+        try:
+            try:
+                self.exec_block(st.body)
+            except RaiseEx as e:
+                for h in st.handlers:
+                    if h.type is None or self._exc_matches(e.name, self.eval(h.type)):
+                        if h.name:
+                            self.frame.locals[h.name] = ExcVal(e.name)
+                        self.exec_block(h.body)
+                        break
+                else:
+                    raise
+            else:
+                self.exec_block(st.orelse)
+        finally:
+            if st.finalbody:
+                self.exec_block(st.finalbody)
+
+    def _exc_matches(self, name, spec):
+        if isinstance(spec, tuple):
+            return any(self._exc_matches(name, x) for x in spec)
+        if isinstance(spec, ExcVal):
+            return spec.name in (name, "Exception", "BaseException")
+        if isinstance(spec, ClassVal):
+            return spec.ci.name == name
+        return False
 
     def exec_Import(self, st):
         raise Unsupported("local import")
